@@ -12,7 +12,7 @@ from common import Ctx, MachineryError, pmap
 IMPL = dict(Shared=False, SetOnAllPaths=True, ClearOnError=True, CopyOnConstruct=True)
 INTENDED = dict(Shared=True, SetOnAllPaths=True, ClearOnError=True, CopyOnConstruct=True)
 DOCS = ["plain", "colA", "colB", "multi", "fig", "fail", "share2", "share3", "paged", "pagedfn", "pagedhdr", "multi13",
-        "share1", "sharew2", "sharew3", "brdA", "brdB", "cyc", "pagedm1", "pagedm2"]
+        "share1", "sharew2", "sharew3", "brdA", "brdB", "cyc", "pagedm1", "pagedm2", "pgshare", "pgfail"]
 JUDGE = ["C14_Pure", "C14_Repeatable", "C14_DfUnchanged", "C14_Outcome", "C14_AllRan"]
 PLAN = {"quick": dict(exhaustive=1, sim_len=4, sim_num=900, model_len=2),
         "thorough": dict(exhaustive=3, sim_len=4, sim_num=12000, model_len=3)}
@@ -26,7 +26,7 @@ def _hist_cfg(work, name, flags, maxhist, invariants):
 def _judge(ctx, work, recs, fresh, known_sig):
     traces = []
     for r in recs:
-        traces.append({"id": r["id"], "c": {"fresh": fresh, "failing": ["fail"], "nops": len(r["prog"])}, "ev": r["ev"]})
+        traces.append({"id": r["id"], "c": {"fresh": fresh, "failing": ["fail", "pgfail"], "nops": len(r["prog"])}, "ev": r["ev"]})
     verdicts = family.validate(ctx, work, "HistTrace", traces, JUDGE, name="hist")
     for r in recs:
         by = {}
@@ -51,12 +51,13 @@ def run(pid, tier, seed, replay=None):
     try:
         fresh = {}
         for d in DOCS:
-            if d != "fail":
+            if d not in ("fail", "pgfail"):
                 e = histrun.fresh_digest(d)
                 if e["outcome"] != "ok":
                     raise MachineryError("fresh encode of pool document %s failed: %s" % (d, e))
                 fresh[d] = e["digest"]
         fresh["fail"] = ""
+        fresh["pgfail"] = ""
 
         def known_sig(cl, r, at):
             for f in ctx.known:
